@@ -252,7 +252,22 @@ impl<'a> TraceGen<'a> {
             1 => format!("{}at {}.{}(Unknown Source)", indent, c, m),
             2 => format!("{}... {} more", indent, rng.below(20)),
             3 => format!("{}at {}.{}(SourceFile)", indent, c, m),
-            _ => format!("{}at {}.{}({}:{})", indent, c, m, rng.pick(&["SourceFile", "Foo.java", "<unknown>", "a b"]), self.line(rng)),
+            4 => {
+                // unusual spellings of the line number and of the file
+                let l = self.line(rng);
+                let num = match rng.below(8) {
+                    0 => format!("+{}", l),
+                    1 => format!("00{}", l),
+                    2 => format!("-{}", l),
+                    3 => format!(" {}", l),
+                    4 => format!("{} ", l),
+                    5 => String::new(),
+                    6 => format!("{}{}", l, rng.pick(&["\u{b2}", "\u{660}", "L", ".0"])),
+                    _ => format!("+0{}", l),
+                };
+                format!("{}at {}.{}({}:{})", indent, c, m, rng.pick(&["SourceFile", "Main(1).java", "a(b", "x)y", "(", "F.java"]), num)
+            }
+            _ => format!("{}at {}.{}({}:{})", indent, c, m, rng.pick(&["SourceFile", "Foo.java", "<unknown>", "a b", "Main(1).java", "a(b"]), self.line(rng)),
         }
     }
     /// free-form trace text
@@ -340,6 +355,27 @@ impl<'a> TraceGen<'a> {
 }
 
 /// traces at size thresholds: many frames under one exception, deep cause chains, long messages
+/// Traces with very deep cause chains (typed remapping, `Display`, `Clone` and `Drop` of a trace
+/// must not recurse once per level): alternating known / unknown classes, with and without frames.
+pub fn deep_chain_traces(th: bool) -> Vec<String> {
+    let mut v = Vec::new();
+    // (deeper chains — 300 000 and 1 000 000 levels — are run on the crate alone by the C08 / C13
+    // oracles: the list-based model is quadratic in the depth)
+    let _ = th;
+    for depth in [5_000usize, 20_000] {
+        let mut t = String::with_capacity(depth * 24 + 64);
+        t.push_str("a: top\n    at a.m(F:1)\n");
+        for i in 0..depth {
+            t.push_str(if i % 2 == 0 { "Caused by: small: x\n" } else { "Caused by: zz.U\n" });
+            if depth <= 20_000 && i % 3 == 0 {
+                t.push_str("    at small.a(F:1)\n");
+            }
+        }
+        v.push(t);
+    }
+    v
+}
+
 pub fn threshold_traces() -> Vec<String> {
     let mut v = Vec::new();
     for n in [127usize, 128, 255, 256, 257, 300] {
@@ -1087,6 +1123,12 @@ fn trace_threshold_ops(out: &mut Out, typ: bool, th: bool) {
             out.d(format!("TYP {}", hxs(&t)));
         }
     }
+    if typ {
+        for t in deep_chain_traces(th) {
+            out.d(format!("TYP {}", hxs(&t)));
+            out.count("deep_cause_chains");
+        }
+    }
     for s in HOSTILE_TEXT.iter().chain(HOSTILE_TEXT2.iter()) {
         out.d(format!("TXT {}", hxs(s)));
         out.d(format!("TXT {}", hxs(&format!("x.Y: m\n{}\nCaused by: {}\n{}", s, s, s))));
@@ -1644,6 +1686,13 @@ pub fn gen_c13(rng: &mut Rng, tier: &str, out: &mut Out) {
         out.d(format!("TXT {}", hxs(s)));
         out.d(format!("TYP {}", hxs(s)));
     }
+    map_op(out, true, b"o.Small -> small:\n    1:1:void x():7:7 -> a\no.A -> a:\n");
+    for t in deep_chain_traces(th) {
+        out.d(format!("TXT {}", hxs(&t)));
+        out.d(format!("TYP {}", hxs(&t)));
+        out.d(format!("TRC {}", hxs(&t)));
+        out.count("deep_cause_chains");
+    }
 }
 
 pub fn gen_c14(rng: &mut Rng, tier: &str, out: &mut Out) {
@@ -1697,6 +1746,24 @@ pub fn gen_c15(rng: &mut Rng, tier: &str, out: &mut Out) {
             out.count("sink_fail_at");
         }
         out.d(format!("SINK {} - {}", rng.range(1, 9), rng.range(2, 4)));
+        // short writes *and* interrupts on the same run (every j-th call interrupted)
+        for _ in 0..(if th { 8 } else { 3 }) {
+            out.d(format!("SINK {} - {}", rng.range(1, 40), rng.range(2, 7)));
+            out.count("sink_short_and_interrupted");
+        }
+        // a sink that is full after n bytes and says so with `Ok(0)` (like `&mut [u8]`), at positions
+        // in every section incl. the last bytes
+        for _ in 0..(if th { 12 } else { 5 }) {
+            let k = rng.pick(&[1usize, 3, 7, 64, 4096, 1 << 20]);
+            let npos = match rng.below(4) {
+                0 => len.saturating_sub(rng.below(12)),
+                1 => rng.below(25),
+                _ => rng.below(len + 2),
+            };
+            let j = if rng.pct(30) { format!("{}", rng.range(2, 5)) } else { "-".into() };
+            out.d(format!("SINKZ {} {} {}", k, npos, j));
+            out.count("sink_full_ok0");
+        }
     }
 }
 
